@@ -45,7 +45,7 @@ theorem down_mid_lazy {P : Par} (hP : P.Ok) {out : List Nat} {w : W} {sq : Int} 
   have hcst : CStatL P c := by rw [← hc]; exact h.cst
   have hcnt : CntOk c 1 := by rw [← hc]; exact h.cnt
   -- step 1: the client receives the fragment, appends it and pings at once
-  generalize hrq : (Client.Rq.mk (pkt.length : Int) c.chunkid P.ty 0 (name.headD 0) pkt) = rq
+  generalize hrq : (Client.Rq.mk (pkt.length : Int) c.chunkid (answerType P.ty) 0 (name.headD 0) pkt) = rq
   have hci : cliInput (.ans c.chunkid P.ty name pkt) = .rq rq := by subst hrq; rfl
   have hrok : RecvOkL P c rq pkt := by
     subst hrq
